@@ -711,6 +711,8 @@ func main() {
 	}
 	swg.Wait()
 	run.FloorCounter("slow_acquisition_scenarios", 2)
+	concurrentFirstUse(run, run.N(4000, 120000))
+	run.FloorCounter("concurrent_first_use_trials", 3000)
 
 	run.Floor("cache reuse observed (issued token)", 1, int(run.Counter("cache_reuse_issued")))
 	run.Floor("cache reuse observed (static token)", 1, int(run.Counter("cache_reuse_static")))
